@@ -198,6 +198,12 @@ func (e *Ev) evConversion(x *ast.CallExpr, t types.Type) Val {
 			}
 		}
 	}
+	// a map converted to a map type with the same underlying type is the same map object
+	if m, ok := v.(VMapRef); ok {
+		if _, isMap := t.Underlying().(*types.Map); isMap && types.Identical(t.Underlying(), e.typeOf(x.Args[0]).Underlying()) {
+			return m
+		}
+	}
 	e.unsupp(x, "unsupported conversion of %T to %s", v, t)
 	return nil
 }
